@@ -285,3 +285,25 @@ func declClosure(p *load.Prog, pkg *packages.Package, fd *ast.FuncDecl, maxDepth
 	add(fd, 0)
 	return out
 }
+
+
+// caseConds maps every case expression of the tagged switches of fd to the
+// comparison it stands for. go/cfg records a tagged switch as the tag followed
+// by bare case expressions; path analyses that refine on conditions need
+// `tag == expr` back.
+func caseConds(fd *ast.FuncDecl) map[ast.Expr]ast.Expr {
+	out := map[ast.Expr]ast.Expr{}
+	ast.Inspect(fd.Body, func(n ast.Node) bool {
+		sw, ok := n.(*ast.SwitchStmt)
+		if !ok || sw.Tag == nil {
+			return true
+		}
+		for _, cc := range sw.Body.List {
+			for _, e := range cc.(*ast.CaseClause).List {
+				out[e] = &ast.BinaryExpr{X: sw.Tag, Op: token.EQL, Y: e, OpPos: e.Pos()}
+			}
+		}
+		return true
+	})
+	return out
+}
